@@ -692,3 +692,32 @@ def c01_g(ctx):
             ctx.ok(f, 'library attributes resolve', '', fn=f, node=f.node)
     if library_attr_exists('numpy.Inf') is not False or library_attr_exists('numpy.inf') is not True:
         ctx.undecided('positive example failed: numpy.Inf should be absent, numpy.inf present')
+
+
+@obligation('C01-h', 'T2', 'extracting a result does not write into the sampler\'s sample buffers',
+            floor=2,
+            necessary='the buffers keep batch_size scratch rows beyond n_samples; trimming them in '
+                      'place makes every later batch overwrite kept draws, so a run that was '
+                      'inspected mid-way no longer returns the best draws')
+def c01_h(ctx):
+    cls = ctx.cls(REJ)
+    er = ctx.own_method(cls, 'extract_result')
+    ex = ctx.ex(er)
+    w = ctx.stores(er, "self.state['samples'][_]") + ctx.stores(er, "self.state['samples']")
+    ctx.check(not w, er, 'sample buffers are read only during extraction',
+              'outputs collected in a fresh dict',
+              'extract_result stores into self.state[\'samples\'] (through `{}`): the live '
+              'buffers are replaced by their first n_samples rows'.format(
+                  src(w[0][0])[:60] if w else ''), fn=er, node=w[0][0] if w else er.node)
+    # the dict handed to the result object is a new one
+    rr = [r for r in returns(er) if r.value is not None]
+    ok = False
+    for r in rr:
+        t = ex.term(r.value)
+        kw = term_kwargs(t) if t[0] == 'call' else {}
+        o = kw.get('outputs')
+        if o is not None and o != pattern_term("self.state['samples']"):
+            ok = True
+    ctx.check(ok, er, 'result outputs are not the state dict itself', 'Sample(outputs=<new dict>)',
+              'the result object is given the sampler\'s own state dict', fn=er,
+              node=rr[0] if rr else er.node)
